@@ -227,7 +227,7 @@ class SubclassJSONSerializer:
             return [from_json(d) for d in data]
 
         fully_qualified_class_name = data.get(JSON_TYPE_NAME)
-        if not fully_qualified_class_name:
+        if fully_qualified_class_name is None:
             raise MissingTypeError()
 
         if not isinstance(fully_qualified_class_name, str):
